@@ -13,7 +13,7 @@ LEVEL_TEXT = ('Each returned tuple is extracted symbolically for every mode; der
 LEVEL_NOTE = ('Trusted: front-end, interpreter, differentiation rules, real algebra. sqrt(1-cos^2 t) is sin t on the declared domain (0, pi) (sample points are drawn with sin t positive). '
               'The frequency switch (|mode| > threshold) is evaluated as "non-zero frequency" on the generic region and as 0 where the mode frequency is identically zero.')
 EXPLANATION = ('R14.1 returned first/second derivatives == symbolic partial derivatives of the returned potential, per mode; R14.2 Laplace identity per mode; '
-               'R14.3 per-mode variants summed == non-modal counterpart, frequency/mode tables agree with the mode names; R14.4 limits between siblings.')
+               'R14.3 per-mode variants summed == non-modal counterpart, frequency/mode tables agree with the mode names; R14.4 limits between siblings; R14.5 the same consistency on the own spin-orbit resonance (mode frequency zero, static switch active).')
 
 FILES = {
     'sync_low_e': 'synchronous_low_e', 'nsr_noobl': 'nsr_med_eccen_no_obliquity', 'nsr_modes_noobl': 'nsr_modes_med_eccen_no_obliquity',
@@ -104,6 +104,53 @@ def run(chk):
                         okf = okf and d.equal(modes[name], mref)
                 chk.ob('R14.3', inst + ': frequency == |mode| and mode == its name', okf, 'frequency/mode table disagrees with the mode name', m.where(f),
                        key=f'R14.3|freq|{inst}', method='GF(p^2) PIT')
+
+    # ---------------- R14.5 spin-orbit resonances: a mode whose frequency vanishes is governed by the static switch; with use_static=True it is kept,
+    #                  and what is kept must still be a consistent harmonic field (derivatives of the returned potential, Laplace identity)
+    from fractions import Fraction as Fr
+    import re as _re
+
+    def coeffs(name):
+        m_ = _re.fullmatch(r'([+-]?\d*)([no])(?:([+-]\d*)([no]))?', name.replace(' ', ''))
+        if not m_: return None
+        def co(c): return int(c + '1') if c in ('', '+', '-') else int(c)
+        cn = co_ = 0
+        for c, v in ((m_.group(1), m_.group(2)), (m_.group(3), m_.group(4))):
+            if v is None: continue
+            if v == 'n': cn += co(c)
+            else: co_ += co(c)
+        return co_, cn
+    n_res = 0
+    for key in FILES:
+        m, f = mods[key]
+        if 'use_static' not in [p.arg for p in f.args.args]:
+            continue
+        names = list(call(key, True)[2])
+        ratios = sorted({Fr(-c[1], c[0]) for c in map(coeffs, names) if c and c[0] != 0})
+        if chk.tier == 'quick':
+            ratios = [q for q in ratios if q in (Fr(1), Fr(3, 2), Fr(1, 2), Fr(2))] or ratios[:2]
+        for q in ratios:
+            spin_res = X.const(q) * n
+            for us in (True, False):
+                freqs, modes, tuples = call(key, us, spin=spin_res)
+                for name, tup in tuples.items():
+                    c = coeffs(name)
+                    resonant = bool(c) and c[0] != 0 and Fr(-c[1], c[0]) == q
+                    if not resonant or len(tup) != 6:
+                        continue
+                    n_res += 1
+                    U, Ut, Up, Utt, Upp, Utp = tup
+                    dU_t = X.diff(U, 'colatitude'); dU_p = X.diff(U, 'longitude')
+                    refs = (None, dU_t, dU_p, X.diff(dU_t, 'colatitude'), X.diff(dU_p, 'longitude'), X.diff(dU_t, 'longitude'))
+                    bad = [f'{NAMES[i]} != d{NAMES[i][2:]} of returned U ({d.describe(tup[i], refs[i])})' for i in range(1, 6) if not d.equal(tup[i], refs[i])]
+                    lap = sin_t * sin_t * Utt + sin_t * cos_t * Ut + Upp + 6 * sin_t * sin_t * U
+                    if not d.is_zero(lap):
+                        bad.append(f'Laplace identity fails ({d.describe(lap, X.ZERO)})')
+                    inst = f'{FILES[key]} static={us} mode {name} at the resonance spin = {q} n (mode frequency zero)'
+                    chk.ob('R14.5', inst + ': returned derivatives == derivatives of the returned potential, and the degree-2 Laplace identity', not bad, '; '.join(bad[:3]), m.where(f),
+                           key=f'R14.5|{inst}', method='symbolic differentiation + GF(p^2) PIT on the resonant (measure-zero) region')
+    chk.note_analysed('resonances', f'{n_res} (implementation, flag, mode) triples analysed with the spin pinned to the mode\'s own resonance')
+    chk.floor('R14.5', 8)
 
     # ---------------- R14.3 modal sum == non-modal
     pairs = (('nsr_modes_noobl', 'nsr_noobl'), ('nsr_modes_medobl', 'nsr_medobl'), ('nsr_modes_genobl', 'nsr_genobl'))
